@@ -51,7 +51,12 @@ ASSUMPTIONS = [
     "SpreadsheetInput convert_to_long/short) are not modelled: columns with several cells -- families equal up to letter "
     "case that differ or not in the case of a value/extension, repeats, empty cells, one-cell and all-equal columns -- are "
     "checked cell by cell against the T4 specification and the cell converted alone, with long/short round trips "
-    "(testing; harness/c03_cols.py).  Proved on the model side: C03_extension_is_written",
+    "(testing; harness/c03_cols.py).  Row labels of the Series/frames are an input dimension of these entry points "
+    "(default, offset, gaps, permutation, reversed, strings, frames re-ordered by sort_dataframe_by_onsets): every row "
+    "must get the conversion of its own cell, labels and order unchanged -- tested only.  Values that are a '#' "
+    "placeholder followed by a unit/label in mixed case ('# Hz', '# degree Celsius', '# µV') are part of the value "
+    "streams; that they are carried verbatim is an instance of C03_remainder_verbatim / C03_extension_is_written.  "
+    "Proved on the model side: C03_extension_is_written",
     "by construction of the model, not proved of the implementation: a lookup leaves the model's table untouched and "
     "reading/copying a HedTag is an identity step (the code in /repo has no memo or cached forms); C03_tag_reads_invisible "
     "and the lookup half of C03_schema_history only record this shape.  Proved: C03_merge_incremental (merging into an "
@@ -374,7 +379,9 @@ def model_obs(m):
 # ---------------------------------------------------------------------------------------------
 
 EXT_WORDS = ["Qzx9", "my-ext_1", "Wvv8/Zed7", "x", "Qzx9/", "ab cd", "日本", "é1", "Q#", "#x"]
-VALUES = ["3.5 mJx", "12", "-1.5e3 qq", "some text", "3:4", "a/b/c", "@home", "3 ms", "#", "# ms"]
+# incl. the '#' placeholder followed by a unit or label in mixed case (sidecar templates: 'Frequency/# Hz')
+VALUES = ["3.5 mJx", "12", "-1.5e3 qq", "some text", "3:4", "a/b/c", "@home", "3 ms", "#", "# ms", "# Hz",
+          "# degree Celsius", "# Trial_A", "# µV"]
 CASES = ["asis", "upper", "lower", "random"]
 
 
@@ -1010,7 +1017,8 @@ def _run(tier, seed, res, rng, model_ok, proof_ok):
         ncol = (24 if spec[0] == "file" else 6) * (1 if quick else 4)
         cols = CO.make_columns(rng, me, voc, ns, ncol)
         for a in range(0, len(cols), 12):
-            cjobs.append((spec[:3], ns, _SCRATCH, [[c[0] for c in col] for col in cols[a:a + 12]]))
+            cjobs.append((spec[:3], ns, _SCRATCH, [([c[0] for c in col], labels, kind)
+                                                    for col, labels, kind in cols[a:a + 12]]))
             cmeta.append((spec, ns, cols[a:a + 12]))
     with Pool(int(C.JOBS), initializer=_winit, initargs=(_SCRATCH,)) as pool:
         couts = pool.map(CO.columns_worker, cjobs, chunksize=1)
@@ -1054,6 +1062,7 @@ def _run(tier, seed, res, rng, model_ok, proof_ok):
         "fixed_semantics": bool(FIXED),
         "schema_history_scenarios": h_scen, "schema_history_lookups": h_evals, "form_history_steps": f_steps,
         "column_cells": col_cells, "columns": sum(len(m[2]) for m in cmeta),
+        "column_row_labels": CO.LABEL_KINDS,
         "timing_s": dict(timing, total=round(_t.time() - T0, 1)),
     }
 
